@@ -74,6 +74,181 @@ func (e *Exec) mineTerm(id *Term) *Term {
 	return Or(Le(e.heapRead(e.entry, "$alloc", SInt), id), App(SBool, "owned", id))
 }
 
+func bigName(t types.Type) string {
+	if p, ok := t.(*types.Pointer); ok {
+		if n, ok := p.Elem().(*types.Named); ok {
+			return n.Obj().Name()
+		}
+	}
+	return ""
+}
+
+// Value model of *big.Int (assumed contract of math/big): heap component BIGV
+// maps the object to the mathematical integer it holds.
+const bigComp = "BIGV"
+
+func (e *Exec) bigGet(st *State, p *Term) *Term {
+	return Select(e.heapRead(st, bigComp, ArrSort(SInt)), p)
+}
+
+func (e *Exec) bigSet(st *State, p *Term, v *Term) {
+	h := e.heapRead(st, bigComp, ArrSort(SInt))
+	st.heap[bigComp] = e.def(h.Sort, Store(h, p, v))
+}
+
+func (e *Exec) ptrTerm(fr *Frame, st *State, v ssa.Value) *Term {
+	switch x := e.val(fr, v).(type) {
+	case *Term:
+		if x.Sort == SInt {
+			return x
+		}
+	case *Loc:
+		return e.locAsTerm(st, x)
+	}
+	return nil
+}
+
+// bigIntValue gives the Int methods their meaning over BIGV. Returns false when the method is not modelled.
+func (e *Exec) bigIntValue(fr *Frame, st *State, x *ssa.Call, name string) (Value, bool) {
+	args := x.Call.Args
+	ptr := func(i int) *Term {
+		if i >= len(args) {
+			return nil
+		}
+		return e.ptrTerm(fr, st, args[i])
+	}
+	val := func(i int) *Term {
+		p := ptr(i)
+		if p == nil {
+			return nil
+		}
+		return e.def(SInt, e.bigGet(st, p))
+	}
+	z := ptr(0)
+	if z == nil {
+		return nil, false
+	}
+	set := func(v *Term) (Value, bool) {
+		e.bigSet(st, z, e.def(SInt, v))
+		return e.val(fr, args[0]), true
+	}
+	abs := func(t *Term) *Term { return Ite(Lt(t, IntLit(0)), App(SInt, "-", t), t) }
+	switch name {
+	case "Add", "Sub", "Mul":
+		a, b := val(1), val(2)
+		if a == nil || b == nil {
+			return nil, false
+		}
+		switch name {
+		case "Add":
+			return set(Add(a, b))
+		case "Sub":
+			return set(Sub(a, b))
+		}
+		return set(App(SInt, "*", a, b))
+	case "Neg", "Abs", "Set":
+		a := val(1)
+		if a == nil {
+			return nil, false
+		}
+		switch name {
+		case "Neg":
+			return set(App(SInt, "-", a))
+		case "Abs":
+			return set(abs(a))
+		}
+		return set(a)
+	case "SetInt64":
+		v, ok := e.val(fr, args[1]).(*Term)
+		if !ok {
+			return nil, false
+		}
+		return set(v)
+	case "Quo", "Rem", "QuoRem", "Div", "Mod", "DivMod":
+		a, b := val(1), val(2)
+		if a == nil || b == nil {
+			return nil, false
+		}
+		// q, r with a = q*b + r; truncated (Quo/Rem): |r| < |b|, r has the sign of a; Euclidean (Div/Mod): 0 <= r < |b|.
+		// (division by zero panics in math/big: the model assumes b != 0 from here on)
+		q, r := e.fresh(SInt, "bq"), e.fresh(SInt, "br")
+		e.assume(st.pc, Not(Eq(b, IntLit(0))))
+		e.assume(st.pc, Eq(a, Add(App(SInt, "*", q, b), r)))
+		e.assume(st.pc, Lt(abs(r), abs(b)))
+		if name == "Div" || name == "Mod" || name == "DivMod" {
+			e.assume(st.pc, Le(IntLit(0), r))
+		} else {
+			e.assume(st.pc, Or(Eq(r, IntLit(0)), Eq(Lt(r, IntLit(0)), Lt(a, IntLit(0)))))
+		}
+		switch name {
+		case "Quo", "Div":
+			return set(q)
+		case "Rem", "Mod":
+			return set(r)
+		}
+		rp := ptr(3)
+		if rp == nil {
+			return nil, false
+		}
+		e.bigSet(st, z, q)
+		e.bigSet(st, rp, r)
+		return &Tuple{Vs: []Value{e.val(fr, args[0]), e.val(fr, args[3])}}, true
+	case "Lsh", "Rsh":
+		a := val(1)
+		c, ok := args[2].(*ssa.Const)
+		if a == nil || !ok || c.Value == nil {
+			return nil, false
+		}
+		n := c.Int64()
+		if n < 0 || n > 62 {
+			return nil, false
+		}
+		p2 := IntLit(int64(1) << uint(n))
+		if name == "Lsh" {
+			return set(App(SInt, "*", a, p2))
+		}
+		return set(App(SInt, "div", a, p2)) // floor division: Rsh is an arithmetic shift
+	}
+	return nil, false
+}
+
+// bigIntQuery: the reading methods of *big.Int over BIGV.
+func (e *Exec) bigIntQuery(fr *Frame, st *State, x *ssa.Call, name string) (Value, bool) {
+	args := x.Call.Args
+	p := e.ptrTerm(fr, st, args[0])
+	if p == nil {
+		return nil, false
+	}
+	a := e.def(SInt, e.bigGet(st, p))
+	sign := func(t *Term) *Term { return Ite(Lt(t, IntLit(0)), IntLit(-1), Ite(Eq(t, IntLit(0)), IntLit(0), IntLit(1))) }
+	switch name {
+	case "Sign":
+		return e.def(SInt, sign(a)), true
+	case "Cmp", "CmpAbs":
+		q := e.ptrTerm(fr, st, args[1])
+		if q == nil {
+			return nil, false
+		}
+		b := e.def(SInt, e.bigGet(st, q))
+		if name == "CmpAbs" {
+			abs := func(t *Term) *Term { return Ite(Lt(t, IntLit(0)), App(SInt, "-", t), t) }
+			return e.def(SInt, sign(Sub(abs(a), abs(b)))), true
+		}
+		return e.def(SInt, sign(Sub(a, b))), true
+	case "IsInt64":
+		return e.def(SBool, And(Le(BigLit("-"+pow2(63)), a), Lt(a, BigLit(pow2(63))))), true
+	case "Int64":
+		return e.def(SInt, App(SInt, "wrapS", a, BigLit(pow2(63)))), true
+	case "Bit":
+		c, ok := args[1].(*ssa.Const)
+		if !ok || c.Value == nil || c.Int64() != 0 {
+			return nil, false
+		}
+		return e.def(SInt, App(SInt, "mod", a, IntLit(2))), true
+	}
+	return nil, false
+}
+
 // bigCall models the calls into math/big (third result: handled).
 func (e *Exec) bigCall(fr *Frame, st *State, x *ssa.Call, callee *ssa.Function) (Value, bool, bool) {
 	if callee.Pkg == nil || callee.Pkg.Pkg == nil || callee.Pkg.Pkg.Path() != "math/big" {
@@ -86,7 +261,13 @@ func (e *Exec) bigCall(fr *Frame, st *State, x *ssa.Call, callee *ssa.Function) 
 			for _, a := range x.Call.Args {
 				e.exactUse(fr, st, a, "arg")
 			}
-			return e.alloc(st, "big"), true, true
+			p := e.alloc(st, "big")
+			if name == "NewInt" {
+				if v, ok := e.val(fr, x.Call.Args[0]).(*Term); ok {
+					e.bigSet(st, p, v)
+				}
+			}
+			return p, true, true
 		}
 		return nil, true, false
 	}
@@ -95,6 +276,11 @@ func (e *Exec) bigCall(fr *Frame, st *State, x *ssa.Call, callee *ssa.Function) 
 		return nil, true, false
 	}
 	args := x.Call.Args
+	if kind == "Int" && !bigMutators[name] {
+		if v, ok := e.bigIntQuery(fr, st, x, name); ok {
+			return v, true, true
+		}
+	}
 	if !bigMutators[name] {
 		if kind == "Float" && name == "Int" && len(args) == 2 {
 			// (*Float).Int(z): writes z when given, else a new Int
@@ -154,6 +340,17 @@ func (e *Exec) bigCall(fr *Frame, st *State, x *ssa.Call, callee *ssa.Function) 
 				goal = False
 			}
 			e.oblige(st, "operand-kept", anchor, goal, e.posOf(x))
+		}
+	}
+	if kind == "Int" {
+		if v, ok := e.bigIntValue(fr, st, x, name); ok {
+			return v, true, true
+		}
+		// not modelled: the written objects hold an unknown value now
+		for _, w := range written {
+			if p := e.ptrTerm(fr, st, w); p != nil {
+				e.bigSet(st, p, e.fresh(SInt, "bigv"))
+			}
 		}
 	}
 	e.argsEscape(fr, st, &x.Call)
